@@ -45,6 +45,9 @@ def targets(ctx):
         out.append(("ref:twin:%s" % c.name(), good, False))
     for c in (Cfg(0, b"", 0, 3, 1), Cfg(2, b"", 0, 3, 0)):
         out.append(("ref:zero-data-digest:%s" % c.name(), universe.zero_data_file(c, ctx.seed), False))
+    # scale-dependent shapes: chunks larger than one and than two 32 KiB scan buffers, exactly one buffer, one byte more
+    for c in (Cfg(0, b"", 0, 3, 1), Cfg(2, b"", 0, 1, 1)):
+        out.append(("ref:big:%s" % c.name(), universe.big_file(c, ctx.seed)[0], False))
     # detached twins of two of them (only the dictionary is scanned)
     for (w, c), f in list(zip(specs, files))[2:4]:
         out.append(("lib:%s:%s:detached" % (w, c.name()), universe.detach(f), True))
@@ -88,6 +91,23 @@ def states(base, p, thorough):
             add("zero%d+trunc=%d" % (i, n), bytes(z[:n]))
     for extra in (b"\0", b"\xff" * 3, full[hl:hl + 40]):
         add("overlong+%d" % len(extra), full + extra)
+    return out
+
+
+def states_big(base, p):
+    """on-disk states of a file with big chunks: each chunk alone zeroed / damaged in its first byte, behind every 32 KiB seam
+    and in its last byte; truncation and damage at every chunk edge and buffer seam (-1/0/+1); over-long"""
+    out = [("regions=all-correct", bytes(base))]
+    for i, (off, ln) in enumerate(zckref.extents(p)):
+        if ln == 0:
+            continue
+        z = bytearray(base); z[off:off + ln] = bytes(ln); out.append(("zero%d" % i, bytes(z)))
+        for q in sorted({0, ln - 1} | {k for k in range(universe.BUF - 1, ln, universe.BUF)} | {k for k in range(universe.BUF, ln, universe.BUF)}):
+            z = bytearray(base); z[off + q] ^= 0x40; out.append(("flip%d@%d" % (i, q), bytes(z)))
+    for n in universe.seam_offsets(p):
+        if p.header_len <= n < len(base):
+            out.append(("trunc=%d" % n, bytes(base[:n])))
+    out.append(("overlong+3", bytes(base) + b"\xff" * 3))
     return out
 
 
@@ -217,7 +237,8 @@ def run(ctx):
     nstates = 0
     for name, base, detached in tg:
         p = zckref.parse(base)
-        sts = states(base, p, ctx.tier == "thorough")
+        big = name.startswith("ref:big:")
+        sts = states_big(base, p) if big else states(base, p, ctx.tier == "thorough")
         w = wrong_data_digest(base)
         if w:
             sts.append(("wrong-data-digest", w))
@@ -225,8 +246,8 @@ def run(ctx):
             c = [c for c in (Cfg(0, b"", 0, 3, 1), Cfg(2, b"", 0, 1, 1), Cfg(2, universe.DELTA_DICT, 1, 2, 1)) if "ref:twin:%s" % c.name() == name][0]
             sts.append(("twin-replaced", universe.twin_file(c, ctx.seed)[1]))
         nstates += len(sts)
-        for ch in core.chunks(sts, 40):
-            jobs.append((name, base, detached, ch, hists))
+        for ch in core.chunks(sts, 2 if big else 40):
+            jobs.append((name, base, detached, ch, hists if not big else [h for h in hists if h.count(",") <= 1]))
     ctx.bounds = {"targets": [t[0] for t in tg], "history_depth": depth, "ops": "V validate-checksums, D validate-data, F find-valid",
                   "on_disk_states": nstates, "per_chunk_states": "correct/zeroed/bit-flipped" + ("/last-bit-flipped" if ctx.tier == "thorough" else ""),
                   "truncations": "every length of the all-correct and of a one-chunk-zeroed body"}
